@@ -161,9 +161,12 @@ where
                                 }
                             }
 
-                            // Get delay for this attempt
-                            if let Some(delay) =
-                                this.config.policy.delay_for_attempt(*this.attempt as usize)
+                            // Get delay for this attempt. Interval functions are 0-indexed (the
+                            // first retry is attempt 0), `attempt` counts failures from 1.
+                            if let Some(delay) = this
+                                .config
+                                .policy
+                                .delay_for_attempt((*this.attempt - 1) as usize)
                             {
                                 this.state.mark_reconnecting();
 
